@@ -50,7 +50,9 @@ FitBits(full, n) == IF AllZero(full) THEN Yes(Zeros(n))
                          IF Len(sig) <= n THEN Yes(Zeros(n - Len(sig)) \o sig) ELSE No
 
 (* the n-bit pattern of integer value val for base type / encoding, or "not representable" *)
-IntBits(val, base, enc, n) ==
+\* "DEFAULT" = the description names no BASE-TYPE-ENCODING: two's complement for A_INT32, plain binary for A_UINT32
+IntBits(val, base, enc0, n) ==
+    LET enc == IF enc0 = "DEFAULT" THEN (IF base = "int" THEN "2C" ELSE "NONE") ELSE enc0 IN
     IF n = 0 THEN (IF val.t = "int" /\ val.v = 0 THEN Yes(<<>>) ELSE No) ELSE      \* zero bits hold the value 0 only
     IF val.t = "tok" THEN
        (CASE val.name = "MAXU" -> IF base = "uint" /\ enc = "NONE" THEN Yes(Ones(n)) ELSE No
@@ -87,7 +89,8 @@ Bcd(b, w) == IF b = <<>> THEN 0
              ELSE LET lo == SubSeq(b, IF Len(b) > 4 THEN Len(b) - 3 ELSE 1, Len(b))
                       rest == IF Len(b) > w THEN SubSeq(b, 1, Len(b) - w) ELSE <<>>
                   IN 10 * Bcd(rest, w) + UVal(lo)
-BitsInt(b, base, enc) ==
+BitsInt(b, base, enc0) ==
+    LET enc == IF enc0 = "DEFAULT" THEN (IF base = "int" THEN "2C" ELSE "NONE") ELSE enc0 IN
     IF b = <<>> THEN IntV(0) ELSE
     IF base = "uint" THEN
        (CASE enc = "NONE" -> IF Small(b) THEN IntV(Low(b)) ELSE Wide(b)
